@@ -717,11 +717,14 @@ package tacquito
 //@   ensures[C18] true
 //@   requires s != nil && s.loggerProvider != nil && s.SecretProvider != nil && ctx != nil && conn != nil && !s.proxy
 //@   requires[C05] ghost.sync == 1
-//@   modifies s.waitGroup.active, ghost.inPos, ghost.nwrites, ghost.written, ghost.md5acc, ghost.gauge, ghost.armed, ghost.dead, ghost.reads, ghost.handled, ghost.replies, ghost.closed, ghost.wgDones, ghost.sync, ghost.hcalls, ghost.authorStatus, ghost.authenPass, ghost.acctStatus, ghost.sinkWrites, ghost.sinkAtReply, ghost.scopeArg, ghost.cmpOK, ghost.cmpCalls, ghost.lookups, ghost.lookedUp, ghost.rdFailed
+//@   modifies s.waitGroup.active, ghost.inPos, ghost.nwrites, ghost.written, ghost.md5acc, ghost.gauge, ghost.armed, ghost.dead, ghost.reads, ghost.handled, ghost.replies, ghost.closed, ghost.wgDones, ghost.sync, ghost.hcalls, ghost.authorStatus, ghost.authenPass, ghost.acctStatus, ghost.sinkWrites, ghost.sinkAtReply, ghost.scopeArg, ghost.cmpOK, ghost.cmpCalls, ghost.lookups, ghost.lookedUp, ghost.rdFailed, ghost.admitted, ghost.pgets, ghost.admits
 //@   ensures[C17,C20] ghost.wgDones == old(ghost.wgDones) + 1
 //@   ensures[C07,C13,C17] ghost.closed == old(ghost.closed) + 1
 //@   ensures[C20] ghost.gauge == upd(old(ghost.gauge), waitgroupActive, old(ghost.gauge)[waitgroupActive] - 1)
 //@   ensures[C13] ghost.handled == old(ghost.handled) ==> ghost.replies == old(ghost.replies)
+//@   ensures[C13] ghost.pgets == old(ghost.pgets) + 1
+//@   ensures[C13] ghost.admitted == 0 ==> (ghost.nwrites == old(ghost.nwrites) && ghost.reads == old(ghost.reads) && ghost.handled == old(ghost.handled) && ghost.hcalls == old(ghost.hcalls))
+//@   before[C13] Server.handle : ghost.admitted == 1 && arg2 != nil && arg2.secret == secret && arg2.Conn == conn && arg3 == handler
 
 //@ func (s *Server) Serve(ctx context.Context, listener DeadlineListener) (err error)
 //@   requires s != nil && s.loggerProvider != nil && s.SecretProvider != nil && ctx != nil && listener != nil && !s.proxy
